@@ -208,6 +208,24 @@ def run(db, tier):
               "no error exit of RibStacks::resolve is guarded by holds_locals()")
     rep.check(bool(flow.calls_to(r, "RibKind::local_barrier_cause")), "R-BARRIER", "resolve|tracks-barriers", r.loc,
               "resolve records crossed barriers (local_barrier_cause)", "resolve no longer tracks crossed barriers")
+    # the barrier is discovered by the walk itself: every rib visited is asked for its barrier before its names are looked up
+    lbc = [bi for bi, _ in flow.calls_to(r, "RibKind::local_barrier_cause")]
+    gets = [bi for bi, t in r.calls() if (t.get("f") or "").endswith("::get") and "Ident" in " ".join(t.get("ga") or [])]
+    per_iter = False
+    for g in gets:
+        h = flow.innermost_header(r, g)
+        if h is None:
+            continue
+        in_loop = [b for b in lbc if flow.innermost_header(r, b) == h]
+        # every path from the loop header to the lookup passes a barrier query of that iteration
+        if in_loop:
+            reach = r.reachable_from(h, avoid=set(in_loop))
+            if g not in reach:
+                per_iter = True
+    rep.check(per_iter, "R-BARRIER", "resolve|barrier asked of every rib walked", r.loc,
+              "each rib is asked local_barrier_cause() before its definitions are searched, so the barrier state belongs to this walk",
+              "RibStacks::resolve looks names up in a rib without first asking that rib whether it is a barrier: the barrier is taken from state "
+              "kept outside the walk, which goes stale when a nested item ends (locals of an enclosing function become visible again)")
 
     # ---------------- R-DECL-ORDER
     f = db.fn(VIS + "visit_stmt")
